@@ -4,6 +4,7 @@
 (* PseudoRead.tla.  One event per molecule:                                                      *)
 (*  {"ev":"pseudo","tid":n,"via":"api"|"api_hist"|"cli"|"cli_nosrc","maxN":k (-1 = None),"chrom":"chr1",  *)
 (*   "strand":b,"mol":{"SM","RX","DS":site,"TF":associated+overflow fragments,"af":associated}, *)
+(*   "umis":[UMI of every accepted fragment],"bc":barcode,                                        *)
 (*   "reads":[{"start":s,"cigar":[{"op","n"}],"seq":[..],"q":[..]},..],   every mapped read      *)
 (*   "ref":{"start":s0,"seq":[..]},                     the reference over the molecule's span  *)
 (*   "records":[{"chrom","start","rev","cigar":[{"op","n"}],"seq":[..],"nq":len(qualities),     *)
@@ -35,9 +36,15 @@ ConfOf(reads) ==
 
 RecOf(j) == [start |-> j.start, cigar |-> j.cigar, seq |-> j.seq, nq |-> j.nq, md |-> j.md, rev |-> j.rev, tags |-> j.tags]
 
-TagClause(rs, mol) ==
-    LET bad(k) == \E i \in DOMAIN rs : ~Has(rs[i].tags, k) \/ rs[i].tags[k] # mol[k]
-    IN IF bad("SM") THEN "Inv_C15_Tags_SM" ELSE IF bad("RX") THEN "Inv_C15_Tags_RX"
+(* SM, DS, TF (and af when written) against the molecule; RX (and the UMI part of MI = barcode \o UMI when written)
+   against the most common UMI of the accepted fragments - with a tie either *)
+TagClause(rs, e) ==
+    LET mol == e.mol
+        modes == ModeSet(e.umis)
+        bad(k) == \E i \in DOMAIN rs : ~Has(rs[i].tags, k) \/ rs[i].tags[k] # mol[k]
+    IN IF bad("SM") THEN "Inv_C15_Tags_SM"
+       ELSE IF \E i \in DOMAIN rs : ~Has(rs[i].tags, "RX") \/ rs[i].tags.RX \notin modes THEN "Inv_C15_Tags_RX"
+       ELSE IF \E i \in DOMAIN rs : Has(rs[i].tags, "MI") /\ rs[i].tags.MI \notin { e.bc \o u : u \in modes } THEN "Inv_C15_Tags_MI"
        ELSE IF bad("DS") THEN "Inv_C15_Tags_DS" ELSE IF bad("TF") THEN "Inv_C15_Tags_TF"
        ELSE IF \E i \in DOMAIN rs : Has(rs[i].tags, "af") /\ rs[i].tags.af # mol.af THEN "Inv_C15_Tags_af" ELSE "ok"
 
@@ -54,7 +61,7 @@ PseudoVerdict(e) ==
        ELSE IF \E i \in DOMAIN e.records : ~e.records[i].has_md THEN "Inv_C15_MD_missing"
        ELSE IF ~Inv_MD(rs, refAt) THEN "Inv_C15_MD"
        ELSE IF ~Inv_Call(rs, cf) THEN "Inv_C15_Call"
-       ELSE TagClause(rs, e.mol)
+       ELSE TagClause(rs, e)
 
 Verdict(e) == IF e.ev = "pseudo" THEN PseudoVerdict(e)
               ELSE IF e.ev = "orphan" THEN "Inv_C15_Blocks_record_outside_every_molecule"
@@ -73,7 +80,7 @@ Notes(line, e) ==
             /\ (IF ~cutok THEN Note(line, e.tid, "divergence_split_differs_from_design") ELSE TRUE)
 
 TInit == /\ l = 1
-         /\ ref = <<>> /\ maxN = 0 /\ strand = FALSE /\ nfrag = 0 /\ nreads = 0 /\ overflow = 0 /\ open = FALSE /\ conf = <<>>
+         /\ ref = <<>> /\ maxN = 0 /\ strand = FALSE /\ nfrag = 0 /\ nreads = 0 /\ umis = <<>> /\ overflow = 0 /\ open = FALSE /\ conf = <<>>
          /\ pc = "trace" /\ calls = <<>> /\ cigar = <<>> /\ ix = 0 /\ refpos = 0 /\ refstart = 0 /\ refend = 0
          /\ pCigar = <<>> /\ pSeq = <<>> /\ recs = <<>> /\ raised = FALSE
 TNext == /\ l <= Len(Log)
